@@ -1553,6 +1553,60 @@ def gen_parse():
     if not rows or rows[-1][0] is not None or any(c is None for c, _ in rows[:-1]):
         raise TranslateError("pattern_atoms: the match needs exactly one catch-all arm, at the end")
     chain = " else ".join(f"if {c} then {v}" for c, v in rows[:-1]) + f" else {rows[-1][1]}"
+    # the per-character bookkeeping of the grapheme loop of new_inner (twice in the source: escape loop and closure)
+    ni = next((b for b in fn_bodies(msrc).get("new_inner", [])), None)
+    if ni is None:
+        raise TranslateError("Atom::new_inner not found")
+    ni = re.sub(r"#\[cfg\([^\]]*\)\]", "", ni)
+    blocks_src = []
+    for bm in re.finditer(r"match (case|normalization) \{", ni):
+        depth, k = 1, bm.end()
+        while depth:
+            depth += {"{": 1, "}": -1}.get(ni[k], 0)
+            k += 1
+        blocks_src.append((bm.start(), bm.group(1), ni[bm.end():k - 1]))
+    # the byte path has its own `match case` (whole-string operations); the grapheme loop's blocks are the ones assigning per character
+    per_char = [(pos, which, txt) for pos, which, txt in blocks_src if "chars::" in txt]
+    if len(per_char) != 4:
+        raise TranslateError(f"new_inner: expected the per-character case/normalization matches twice, found {len(per_char)} blocks")
+
+    def fold_block(which, txt):
+        arms = [a.strip().rstrip(",").strip() for a in re.split(r"(?=CaseMatching::|Normalization::)", txt.strip()) if a.strip()]
+        rows = {}
+        for a in arms:
+            mmm = re.fullmatch(r"(CaseMatching|Normalization)::(\w+) => (.*)", a, re.S)
+            if not mmm:
+                raise TranslateError(f"new_inner: arm {a!r}")
+            rhs = mmm.group(3).strip()
+            rhs = re.sub(r"^\{\s*(.*?);?\s*\}$", r"\1", rhs, flags=re.S).strip()
+            table = {"c = chars::to_lower_case(c)": ("to_lower c", "ic", "nz"),
+                     "ignore_case = ignore_case && !chars::is_upper_case(c)": ("c", "ic && !is_upper c", "nz"),
+                     "normalize = normalize && chars::normalize(c) == c": ("c", "ic", "nz && (normalize c == c)"),
+                     "()": ("c", "ic", "nz")}
+            if rhs not in table:
+                raise TranslateError(f"new_inner: statement {rhs!r}")
+            rows[mmm.group(2)] = table[rhs]
+        return rows
+    cases = enum_variants(re.sub(r"#\[[^\]]*\]|///[^\n]*", "", msrc), "CaseMatching")
+    norms = enum_variants(re.sub(r"#\[[^\]]*\]|///[^\n]*", "", msrc), "Normalization")
+
+    def fold_lean(pair):
+        lines = []
+        for _, which, txt in pair:
+            rows = fold_block(which, txt)
+            names = cases if which == "case" else norms
+            if sorted(rows) != sorted(names):
+                raise TranslateError(f"new_inner: match on {which} covers {sorted(rows)}")
+            var = "case" if which == "case" else "norm"
+            arms = " ".join(f"| {names.index(n)} => ({rows[n][0]}, {rows[n][1]}, {rows[n][2]})" for n in names[:-1]) + f" | _ => ({rows[names[-1]][0]}, {rows[names[-1]][1]}, {rows[names[-1]][2]})"
+            lines.append(f"  let (c, ic, nz) : Nat × Bool × Bool := match {var} with {arms}")
+        return lines
+    first, second = fold_lean(per_char[:2]), fold_lean(per_char[2:])
+    if first != second:
+        raise TranslateError("new_inner: the escape loop and the closure treat a character differently")
+    out += ["/-- the per-character bookkeeping of the grapheme loop of `new_inner`, in source order (`CaseMatching`: " + ", ".join(f"{i} = {k}" for i, k in enumerate(cases)) +
+            "; `Normalization`: " + ", ".join(f"{i} = {k}" for i, k in enumerate(norms)) + "): (character pushed, ignore_case, normalize) -/",
+            "def fold_char (to_lower : Nat → Nat) (is_upper : Nat → Bool) (normalize : Nat → Nat) (case norm : Nat) (c : Nat) (ic nz : Bool) : Nat × Bool × Bool :="] + first + ["  (c, ic, nz)", ""]
     out += ["/-- the closure of `pattern_atoms` on one character: (split here?, saw_backslash afterwards); `is_ws` = `c.is_whitespace()` -/",
             f"def split_step (saw : Bool) (is_ws : Bool) (c : Nat) : Bool × Bool := {chain}", "",
             "end NucleoVerif.Gen.Parse"]
